@@ -9,6 +9,7 @@ from concurrent.futures import ThreadPoolExecutor
 
 IDS = ["C%02d" % i for i in range(1, 20)]
 SEEDED = "/verif/seeded"
+VERIF_DIR = os.environ.get("BBV_VERIF_SNAPSHOT", "/verif")    # a snapshot (git worktree) keeps a long matrix run consistent
 
 def sh(cmd, **kw):
     return subprocess.run(cmd, capture_output=True, text=True, **kw)
@@ -28,7 +29,7 @@ def run_mutant(name, ids, tier):
         for i in ids:
             env = dict(os.environ, BBV_REPO=wt, BBV_OUT=out, VERIF_SEED=os.environ.get("VERIF_SEED", "1"))
             t = time.time()
-            p = sh(["/verif/check", i, tier], env=env)
+            p = sh([os.path.join(VERIF_DIR, "check"), i, tier], env=env)
             first = next((l for l in p.stdout.splitlines() if l.strip().startswith("bucket:")), "")
             res[i] = {"exit": p.returncode, "wall": round(time.time() - t, 1), "bucket": first.strip()[8:200]}
     finally:
